@@ -155,7 +155,7 @@ def distorted(wf, vendor, rng, corrupt=False):
     return file_coeffs, ca, cb
 
 
-def write_molden(wf, file_coeffs, ca, cb, unit, title=True, mo_digits=None):
+def write_molden(wf, file_coeffs, ca, cb, unit, title=True, mo_digits=None, interleave=False):
     ob = wf["obasis"]
     out = ["[Molden Format]"]
     if title:
@@ -187,14 +187,15 @@ def write_molden(wf, file_coeffs, ca, cb, unit, title=True, mo_digits=None):
     out.append("[MO]")
     n = ca.shape[1]
     nocc = wf["nocc"]
-    for spin, C, E in (("Alpha", ca, wf["ea"]), ("Beta", cb, wf["eb"])):
-        if C is None:
-            continue
-        for j in range(n):
-            occ = (2.0 if cb is None else 1.0) if j < nocc else 0.0
-            out += [" Sym= A", f" Ene= {E[j]:18.10f}", f" Spin= {spin}", f" Occup= {occ:10.6f}"]
-            for mu in range(C.shape[0]):
-                out.append(f" {mu + 1:5d} {C[mu, j]:22.14E}" if mo_digits is None else f" {mu + 1:5d} {C[mu, j]:12.{mo_digits}f}")
+    records = [("Alpha", ca, wf["ea"], j) for j in range(n)] + ([("Beta", cb, wf["eb"], j) for j in range(n)] if cb is not None else [])
+    if interleave and cb is not None:
+        # every orbital carries its own Spin= tag: alpha and beta records may alternate
+        records = [r for j in range(n) for r in (("Alpha", ca, wf["ea"], j), ("Beta", cb, wf["eb"], j))]
+    for spin, C, E, j in records:
+        occ = (2.0 if cb is None else 1.0) if j < nocc else 0.0
+        out += [f" Sym= {spin[0].lower()}{j + 1}", f" Ene= {E[j]:18.10f}", f" Spin= {spin}", f" Occup= {occ:10.6f}"]
+        for mu in range(C.shape[0]):
+            out.append(f" {mu + 1:5d} {C[mu, j]:22.14E}" if mo_digits is None else f" {mu + 1:5d} {C[mu, j]:12.{mo_digits}f}")
     return "\n".join(out) + "\n"
 
 
@@ -250,12 +251,13 @@ def vendor_case(task):
     types = [NAME_TYPE[n] for n in tnames]
     natom = rng.randint(1, 2)
     ev = {"op": "Vendor", "vendor": "corrupt" if corrupt else vendor, "encoding": vendor, "types": sorted(set(tnames)), "fmt": fmt, "unit": unit,
-          "unrestricted": unres, "norm_threshold": thr, "mo_digits": mo_digits or 0, "seed": seed, "out": "loaded", "same": True, "orthonormal": True, "warning": "none", "msg": ""}
+          "unrestricted": unres, "norm_threshold": thr, "mo_digits": mo_digits or 0, "seed": seed, "out": "loaded", "same": True, "orthonormal": True, "irreps_ok": True, "warning": "none", "msg": ""}
     tmp = tempfile.mkdtemp(prefix="c05_")
     try:
         wf = true_wavefunction(rng, types, natom, unres, single_ok=vendor in ("standard", "unnormalized"))
         fc, ca, cb = distorted(wf, vendor, rng, corrupt)
-        text = write_molden(wf, fc, ca, cb, unit, mo_digits=mo_digits) if fmt == "molden" else write_molekel(wf, fc, ca, cb)
+        interleave = unres and seed % 2 == 1
+        text = write_molden(wf, fc, ca, cb, unit, mo_digits=mo_digits, interleave=interleave) if fmt == "molden" else write_molekel(wf, fc, ca, cb)
         path = os.path.join(tmp, "v.molden" if fmt == "molden" else "v.mkl")
         open(path, "w").write(text)
         with warnings.catch_warnings(record=True) as wl:
@@ -279,6 +281,12 @@ def vendor_case(task):
         ev["warning"] = names[0] if names else "none"
         if len(names) > 1:
             ev["warning"] = "several:" + ",".join(names)
+        if fmt == "molden":
+            # the symmetry label of every orbital stays with its orbital (alpha orbitals first, then beta)
+            nmo = wf["ca"].shape[1]
+            want = [f"a{j + 1}" for j in range(nmo)] + ([f"b{j + 1}" for j in range(nmo)] if wf["cb"] is not None else [])
+            got = [] if obj.mo.irreps is None else [str(x) for x in obj.mo.irreps]
+            ev["irreps_ok"] = got == want
         # same orbitals as functions of space, orthonormal w.r.t. the returned basis
         B0 = basis_values(wf["obasis"], wf["xyz"], PROBE)
         B1 = basis_values(obj.obasis, obj.atcoords, PROBE)
@@ -378,7 +386,7 @@ def check(run: Run):
         stats[k] = stats.get(k, 0) + 1
         if r != 1:
             key = (f"{e['fmt']} {e['vendor']}({e['encoding']}) types={'+'.join(e['types'])} -> {e['out']} same={e['same']} "
-                   f"orthonormal={e['orthonormal']} warning={e['warning']}")
+                   f"orthonormal={e['orthonormal']} warning={e['warning']}" + ("" if e.get("irreps_ok", True) else " irreps-misplaced"))
             run.violation(key, json.dumps(e), {"event": e})
     run.notes["outcomes"] = stats
     run.sample(events[0])
